@@ -290,7 +290,8 @@ def c11(tier):
                 elif cur is not None:
                     texts[cur] += line
             for variant in ("plain", "invalid-utf8-sibling", "directory-named-xsd", "dangling-symlink", "fifo-like-empty", "uppercase-extension",
-                            "every-sibling-a-symlink", "file-names-with-dots-and-non-ascii", "sibling-name-not-utf8"):
+                            "every-sibling-a-symlink", "file-names-with-dots-and-non-ascii", "sibling-name-not-utf8",
+                            "every-file-starts-with-a-byte-order-mark", "siblings-start-with-a-byte-order-mark"):
                 d = os.path.join(droot, f"g{k}-{variant}")
                 os.makedirs(d)
                 if variant == "file-names-with-dots-and-non-ascii":
@@ -317,6 +318,9 @@ def c11(tier):
                         os.symlink(os.path.join(real, "real-" + name + ".txt"), os.path.join(d, name))
                         continue
                     with open(os.path.join(d, name), "w") as fh:
+                        # (the mark Windows editors put in front of <?xml: U+FEFF, three bytes in UTF-8)
+                        if variant == "every-file-starts-with-a-byte-order-mark" or (variant == "siblings-start-with-a-byte-order-mark" and name != f"f{s}.xsd"):
+                            fh.write("\ufeff")
                         fh.write(t)
                 if variant == "invalid-utf8-sibling":
                     with open(os.path.join(d, "zz_latin1.xsd"), "wb") as fh:
